@@ -387,7 +387,7 @@ def gen_texts(tier, seed):
     cells = ["0", "1", "2", "3", "M", "1[0]", "4[12]", "K[345]", "L", "F", "A"]
     total = 1500 if tier == "quick" else 40000
     for k in range(total):
-        cols = rnd.randint(1, 4 if tier == "quick" else 8)
+        cols = rnd.randint(1, 4 if tier == "quick" else 8) if rnd.random() < 0.9 else rnd.randint(9, 16)
         players = rnd.choice([1, 1, 1, 2, 3])
         nl = rnd.choice(["\n", "\r\n"])
         deco = rnd.random() < 0.5
@@ -395,7 +395,7 @@ def gen_texts(tier, seed):
         for _ in range(players):
             ms = []
             for _ in range(rnd.randint(1, 3)):
-                rows = rnd.choice([1, 2, 3, 4, 5, 8, 12])
+                rows = rnd.choice([1, 2, 3, 4, 5, 8, 12]) if rnd.random() < 0.95 else rnd.choice([16, 24, 32, 48, 64, 192])
                 rs = []
                 for _ in range(rows):
                     r = "".join(rnd.choice(cells) if rnd.random() < 0.35 else "0" for _ in range(cols))
@@ -440,8 +440,8 @@ class TextFormat(Bounded):
     function = "simfile.notes.NoteData.__init__/_get_columns/__iter__/__str__ (split/strip/splitlines structure)"
 
     def bound(self, tier):
-        return ("1500 generated well-formed texts: <=4 columns, <=3 players, <=3 measures, rows in {1,2,3,4,5,8,12}, LF/CRLF, blank decoration, brackets" if tier == "quick"
-                else "40000 generated well-formed texts: <=8 columns, <=3 players, <=3 measures, rows in {1,2,3,4,5,8,12}, LF/CRLF, blank decoration, brackets; plus every chart of the corpus")
+        return ("1500 generated well-formed texts: <=4 columns (one in ten: 9..16), <=3 players, <=3 measures, rows in {1,2,3,4,5,8,12} (one in twenty: 16..192), LF/CRLF, blank decoration, brackets" if tier == "quick"
+                else "40000 generated well-formed texts: <=8 columns (one in ten: 9..16), <=3 players, <=3 measures, rows in {1,2,3,4,5,8,12} (one in twenty: 16..192), LF/CRLF, blank decoration, brackets; plus every chart of the corpus")
 
     def run(self, tier, seed):
         import time, glob
